@@ -200,7 +200,7 @@ def task_memcheck(prop, seed, size, cfgbins, shard=0, nshards=1):
 
 STEP_OPS = ['sc.arith', 'sc.invert', 'sc.batchinv2', 'ed.mul', 'ed.mulbase', 'ed.mulclamped', 'ed.msm3', 'ed.pointops', 'mt.mul',
             'x.x25519', 'rs.uniform', 'rs.mul', 'rs.dblbatch2', 'sig.sign', 'sig.keygen', 'ed.table32', 'ed.mul_secretpoint',
-            'rs.msm', 'x.dh1', 'ed.msm190', 'mt.elligator']
+            'rs.msm', 'x.dh1', 'mt.elligator']     # (190-term inputs exceed the stepper's step budget: taint monitor only)
 
 
 def task_stepper(prop, seed, size, cfgbins, ops=()):
@@ -227,7 +227,8 @@ def task_stepper(prop, seed, size, cfgbins, ops=()):
                 continue
             base = None
             for i, l in enumerate(ls[:size]):
-                tr, err = tracediff.record(binary, 't1 ' + l, '%s_%s_%d_%d' % (label.replace('@', '_'), name, seed, i))
+                # fixed-width tag: the request path is an argument of the traced process, and its length moves the stack
+                tr, err = tracediff.record(binary, 't1 ' + l, '%s_%s_%06d_%03d' % (label.replace('@', '_'), name, seed % 1000000, i))
                 if tr is None:
                     harness.append('%s %s: %s' % (label, name, err))
                     break
